@@ -52,7 +52,7 @@ MAX_STARTS = 4
 MAX_OPENS = 2
 # (client_connected hook held, eager task factory effective as in production)
 VARIANTS_QUICK = [(False, True), (True, True)]
-VARIANTS_THOROUGH = [(False, True), (True, True), (False, False), (True, False)]
+VARIANTS_THOROUGH = [(False, True), (True, True), (False, False)]
 VARIANTS = VARIANTS_THOROUGH
 
 
